@@ -169,6 +169,11 @@ def _configs(tier, salts):
                                 if tier == "thorough" and ns is not None and maxfun in (K, K // 2) and salt == 0:
                                     plan = {"depth": 1, "ns_letters": [1, 2, 3, 0]}
                                 out.append((cfg, plan))
+        # the broad option bank with the log switched on, every second budget up to 60
+        if salt == 0 or tier == "thorough":
+            for name, cfg in cfgs.broad_cfgs(salt=salt, budgets=tuple(range(1, 61, 2 if tier == "quick" else 1)), reg_budgets=(1, 5, 9)):
+                cfg = dict(cfg, do_logging=True, tag_restart="broad", tag_noise="broad")
+                out.append((cfg, {"depth": 0}))
     return out
 
 
